@@ -2,6 +2,7 @@
 CONSTANT SubmeshStep = 48
 CONSTANT AnimBoneRule = "size"
 CONSTANT RelocAdvanceAlways = FALSE
+CONSTANT CollectSkipRule = "all-empty"
 CONSTANT SaveTruncates = TRUE
 CONSTANT ViewBatchBytes = 24
 INIT Init
